@@ -8,8 +8,8 @@
      8952ce9a88602c3577a2c7359550e7fdc2539a557b95c43c0851b3fac5101fc3  common/util.go
      989c360a64663db9ffa6ca74ba973c95de3fef8d312e50766d26f0f2e8b2e05f  integrate/change_zoom.go
      8dac45b8dd30d5efb41249df0231397e85ae7ade5c7cbccf111382311450ffc4  shape/line.go
-     961f1d8f691b563349dd05dd0d5c452ee76576ca0efa27acc480f84580cf4439  shape/point.go
-     1ee248d875373329cc0eb100ff500391c56d52d322b05f39bd86dbe4cabf0a72  transform/convert_quadkey_and_Vertical_id.go
+     a7b52779d0e746dc0273ec11ba62cf1dc67176bcb8c1cbb57475aa9f12d7e308  shape/point.go
+     2bea6073ef59cc97542704f8547eb87b82c36f2bd58b404c9e1163a318d6ee83  transform/convert_quadkey_and_Vertical_id.go
 *)
 From Coq Require Import ZArith Bool.
 Open Scope Z_scope.
